@@ -365,6 +365,50 @@ func (in *Interp) binop(op token.Token, x, y Value, t types.Type, xt types.Type)
 	if _, ok := y.(Unknown); ok {
 		return y
 	}
+	// == / != of arrays and structs (e.g. `*p == noncanonicalSignBits[i]` on [32]byte): element-wise, combined like bytes.Equal
+	if xa, ok := x.(AggV); ok {
+		if ya, ok := y.(AggV); ok && (op == token.EQL || op == token.NEQ) && len(xa.elems) == len(ya.elems) {
+			var ets []types.Type
+			switch u := xt.Underlying().(type) {
+			case *types.Array:
+				for range xa.elems {
+					ets = append(ets, u.Elem())
+				}
+			case *types.Struct:
+				for i := 0; i < u.NumFields(); i++ {
+					ets = append(ets, u.Field(i).Type())
+				}
+			default:
+				fail("comparison of aggregate values of type %s", xt)
+			}
+			var acc Value = Conc{big.NewInt(1)}
+			for i := range xa.elems {
+				e := in.binop(token.EQL, xa.elems[i], ya.elems[i], types.Typ[types.Bool], ets[i])
+				if c, ok := e.(Conc); ok {
+					if c.v.Sign() == 0 {
+						acc = Conc{big.NewInt(0)}
+						break
+					}
+					continue
+				}
+				if c, ok := acc.(Conc); ok && c.v.Sign() != 0 {
+					acc = e
+					continue
+				}
+				ia, _ := in.symOrConst(acc)
+				ie, _ := in.symOrConst(e)
+				acc = SymV{in.em.emit(Op{kind: "and", a: ia, b: ie})}
+			}
+			if op == token.EQL {
+				return acc
+			}
+			if c, ok := acc.(Conc); ok {
+				return Conc{big.NewInt(1 - c.v.Int64())}
+			}
+			ia, _ := in.symOrConst(acc)
+			return SymV{in.em.emit(Op{kind: "subw", a: in.em.constant(big.NewInt(1)), b: ia, k: 1})}
+		}
+	}
 	// pointer / nil comparisons
 	switch op {
 	case token.EQL, token.NEQ:
